@@ -275,6 +275,12 @@ inductive Mode where
   | part (k : Nat)
   deriving Repr
 
+/-- `Flags::BODILESS_STATUS` (client.rs, fixes/C17): 1xx, 204 and 304 responses cannot contain a
+body (RFC 7230 §3.3.3); the payload decoder chosen from their headers is still run (pinned by the
+suite's `not_modified_spec_h1`), but the end of the connection ends it cleanly -/
+def bodilessStatus (status : Nat) : Bool :=
+  (100 ≤ status && status < 200) || status == 204 || status == 304
+
 /-- the caller reads until it has seen `n` body bytes, then stops polling and drops the
 response (`.full`: reads to the end) -/
 def earlyDrop (mode : Mode) (delivered : Nat) : Bool :=
@@ -338,7 +344,7 @@ def exchange (o : ReqOpts) (mode : Mode) (segs : List Bytes) (closed : Bool) : E
             | _ => .body h.status []),
           released := ka, reachedEnd := true, keepAlive := ka, discarded := bufRest, unread := rest }
       | some k =>
-        let r := runBody k bufRest rest closed
+        let r := runBody k bufRest rest closed (bodilessStatus h.status)
         if earlyDrop mode r.delivered.length then
           -- the caller stops polling and drops the response: the io is dropped with it
           { outcome := .dropped h.status, released := false, reachedEnd := false, keepAlive := ka,
